@@ -11,6 +11,9 @@ CONSTANTS
   OkayRequired = 3
   Budgets = {0, 2, 8}
   MaxStop = 2
+  Transport = "udp"
+  Redial = "on_failure"
+  MaxReset = 0
   MaxJoin = 2
   HistLen = 26
   UOrder <- MCOrder
